@@ -43,6 +43,7 @@ pub const P_PEER_EST: u16 = 4000;
 pub const P_PEER_SYNSENT: u16 = 4001;
 pub const P_UDP: u16 = 7000;
 pub const P_UDP_NHC: u16 = 0xf0b1;
+pub const P_ECHO: [u16; 2] = [0xf0bf, 0xf0ff];
 pub const ICMP_IDENT: u16 = 0x1234;
 pub const PEER_ISN: u32 = 0x1000_0000;
 pub const T0_MS: i64 = 1000;
@@ -301,6 +302,9 @@ pub struct Handles {
     pub tcp_est: SocketHandle,
     pub udp: SocketHandle,
     pub udp_nhc: SocketHandle,
+    /// echo servers (the application sends every datagram back to its sender), bound to the
+    /// boundary ports of the LOWPAN_NHC UDP port compression
+    pub udp_echo: [SocketHandle; 2],
     pub icmp: [SocketHandle; 3],
     pub raw: Vec<SocketHandle>,
     pub dns: SocketHandle,
@@ -536,6 +540,15 @@ impl World {
         };
         let udp = sockets.add(mk_udp(P_UDP));
         let udp_nhc = sockets.add(mk_udp(P_UDP_NHC));
+        let mk_echo = |port: u16| {
+            let mut u = udp::Socket::new(
+                udp::PacketBuffer::new(vec![udp::PacketMetadata::EMPTY; 2], vec![0u8; 48]),
+                udp::PacketBuffer::new(vec![udp::PacketMetadata::EMPTY; 2], vec![0u8; 48]),
+            );
+            u.bind(port).unwrap();
+            u
+        };
+        let udp_echo = [sockets.add(mk_echo(P_ECHO[0])), sockets.add(mk_echo(P_ECHO[1]))];
         let mk_icmp = |ep: icmp::Endpoint| {
             let mut i = icmp::Socket::new(
                 icmp::PacketBuffer::new(vec![icmp::PacketMetadata::EMPTY; 2], vec![0u8; 2 * SOCK_BUF]),
@@ -576,7 +589,7 @@ impl World {
             iface,
             sockets,
             now_ms: T0_MS,
-            h: Handles { tcp_listen, tcp_synsent, tcp_est, udp, udp_nhc, icmp, raw: raws, dns, dhcp },
+            h: Handles { tcp_listen, tcp_synsent, tcp_est, udp, udp_nhc, udp_echo, icmp, raw: raws, dns, dhcp },
             learned: Learned::default(),
             probe_seq: 0,
             app_panics: vec![],
@@ -721,6 +734,13 @@ impl World {
             }
         }
     }
+    /// several frames are already waiting in the device when the interface is polled ONCE
+    pub fn inject_many(&mut self, frames: &[Vec<u8>]) -> Outcome {
+        for f in frames {
+            self.dev.rx.push_back(f.clone());
+        }
+        self.poll()
+    }
     pub fn inject(&mut self, frame: &[u8]) -> Outcome {
         self.dev.rx.push_back(frame.to_vec());
         self.poll()
@@ -738,6 +758,17 @@ impl World {
             for h in [self.h.udp, self.h.udp_nhc] {
                 let s = self.sockets.get_mut::<udp::Socket>(h);
                 while s.recv().is_ok() {}
+            }
+            for h in self.h.udp_echo {
+                // the usual echo server: every datagram goes back to where it came from
+                let s = self.sockets.get_mut::<udp::Socket>(h);
+                let mut got = vec![];
+                while let Ok((d, meta)) = s.recv() {
+                    got.push((d.to_vec(), meta.endpoint));
+                }
+                for (d, ep) in got {
+                    let _ = s.send_slice(&d, ep);
+                }
             }
             for h in self.h.icmp {
                 let s = self.sockets.get_mut::<icmp::Socket>(h);
@@ -837,7 +868,7 @@ impl World {
             .iter()
             .map(|s| s.to_string())
             .collect();
-        let mut names = vec!["tcp_listen", "tcp_synsent", "tcp_est", "udp", "udp_nhc", "icmp_ident", "icmp_udp", "icmp_tcp"].into_iter().map(String::from).collect::<Vec<_>>();
+        let mut names = vec!["tcp_listen", "tcp_synsent", "tcp_est", "udp", "udp_nhc", "udp_echo_f0bf", "udp_echo_f0ff", "icmp_ident", "icmp_udp", "icmp_tcp"].into_iter().map(String::from).collect::<Vec<_>>();
         for i in 0..self.h.raw.len() {
             names.push(format!("raw{}", i));
         }
